@@ -25,9 +25,18 @@ def control_conditions(fn, node):
     """[(test, polarity)] of the if / while statements the node is nested in (control dependence)"""
     out = []
 
+    def jumps(body):
+        return bool(body) and isinstance(body[-1], (ast.Return, ast.Raise, ast.Continue, ast.Break))
+
     def walk(stmts, acc):
         for st in stmts:
             if not any(n is node for n in ast.walk(st)):
+                # a guard clause (`if c: return`) restricts what follows exactly like an `else:` would
+                if isinstance(st, ast.If):
+                    if jumps(st.body) and not jumps(st.orelse):
+                        acc = acc + [(st.test, False)]
+                    elif jumps(st.orelse) and not jumps(st.body):
+                        acc = acc + [(st.test, True)]
                 continue
             if isinstance(st, ast.If):
                 if any(n is node for b in st.body for n in ast.walk(b)):
@@ -139,6 +148,7 @@ def run(chk, ctx) -> None:
     # itself part of the operation's availability, so an available step is never left to the user
     from ..phases import conjuncts
     from ..paths import unversion
+    hand_running = T.spec('self.street is not None', boolean=True)
     for name, fi in ms.items():
         if not name.startswith('_update_'):
             continue
@@ -168,6 +178,8 @@ def run(chk, ctx) -> None:
                             continue
                     if c[0] == 'mcall' and c[1] == ('name', 'self') and c[2] == q:
                         continue
+                    if c == hand_running:
+                        continue      # automation acts only while the hand is running (a show after the hand is voluntary)
                     extra.append(c)
             chk.ob('C09.not_stronger', f'State.{name}:{op}', not extra, ctx.loc(fi, call),
                    'the automated call is made whenever the step is available: the conditions it is nested under contain nothing beyond '
